@@ -928,6 +928,8 @@ pub struct Pre {
     pub placement: &'static str,
     /// a signer that writes another day into `X-Amz-Credential` than the one it derives scope and key from
     pub split_scope: bool,
+    /// a signer that lists a header the request does not carry in `X-Amz-SignedHeaders` and signs as if it were not listed
+    pub absent_listed: bool,
 }
 
 fn presign_query(b: &Base, expires: &str, ts: &str, cred: &str, signed: &str) -> Vec<(Vec<u8>, Vec<u8>)> {
@@ -950,7 +952,12 @@ pub fn sign_presigned_case(rng: &mut Rng, p: &mut Pre) -> (Case, Vec<(Vec<u8>, V
     let (ak, sk) = AUTH_TABLE[b.ak];
     let cred_date = if p.split_scope { amz_timestamp(b.unix + 86400)[..8].to_owned() } else { date8.clone() };
     let cred = format!("{ak}/{cred_date}/{}/{}/aws4_request", b.region, b.service);
-    let q = presign_query(b, &p.expires.to_string(), &ts, &cred, &b.signed.join(";"));
+    let mut listed = b.signed.clone();
+    if p.absent_listed {
+        listed.push("x-not-there".into());
+        listed.sort();
+    }
+    let q = presign_query(b, &p.expires.to_string(), &ts, &cred, &listed.join(";"));
     let sig = sign(
         &ToSign { method: &b.method, path: &b.path, query: &q, headers: &hs, signed: &b.signed, payload_line: "UNSIGNED-PAYLOAD" },
         sk,
@@ -966,7 +973,11 @@ pub fn sign_presigned_case(rng: &mut Rng, p: &mut Pre) -> (Case, Vec<(Vec<u8>, V
         shuffle(rng, &mut wire_q);
     }
     let case = Case {
-        kind: format!("pre.{}-{}", if p.split_scope { "scope-date-split" } else { "valid" }, p.placement),
+        kind: format!(
+            "pre.{}-{}",
+            if p.split_scope { "scope-date-split" } else if p.absent_listed { "absent-header-listed" } else { "valid" },
+            p.placement
+        ),
         sink: b.sink.clone(),
         http2: b.http2,
         authority: b.authority.clone().map(String::into_bytes),
@@ -1131,10 +1142,11 @@ pub fn generate_presigned(rng: &mut Rng, n: u64, emit: &mut dyn FnMut(Vec<String
         };
         base.unix = unix;
         let split_scope = rng.chance(1, 25);
-        let mut p = Pre { base, expires, placement, split_scope };
+        let absent_listed = !split_scope && rng.chance(1, 25);
+        let mut p = Pre { base, expires, placement, split_scope, absent_listed };
         let (valid, full) = sign_presigned_case(rng, &mut p);
         let mut all = vec![valid.clone()];
-        if split_scope {
+        if split_scope || absent_listed {
             emit(valid.fields());
             produced += 1;
             continue;
